@@ -180,6 +180,15 @@ def recursion_cases():
         for k in reversed(ch):
             inner = through(k, inner)
         out.append(('EVAL via ' + '>'.join(ch), P(inner) + op('DUP') + op('EVAL')))
+    # re-entrant function: each activation first makes a self-call that returns at once (the callee's tape is the caller's
+    # own, still running, tape), then the nesting self-call - the depth must still be bounded by the limit
+    for ch in [()] + [(k,) for k in REC_KINDS[1:]]:
+        nest = op('FALSE') + op('CALL') + b'\x00'
+        for k in reversed(ch):
+            nest = through(k, nest)
+        body = op('IF') + blk(op('RETURN')) + op('TRUE') + op('CALL') + b'\x00' + nest
+        out.append(('CALL via returning-self-call' + ('>' + '>'.join(ch) if ch else ''),
+                    op('DEF') + b'\x00' + blk(body) + op('FALSE') + op('CALL') + b'\x00'))
     return out
 
 
